@@ -8,7 +8,10 @@ code (parameter-to-parameter maps, as exposed) and the check decides
     get_matrix() == F                (column by column)
     T.forward == adjoint, T.adjoint == forward, T.get_matrix() == get_matrix()^T
 
-plus one linearity probe per map (so that "the basis decides everything" is itself checked).
+plus one linearity probe per map (so that "the basis decides everything" is itself checked), an independent
+dense reference of F for the generic cells, and the input-representation facet (ndarray / CUQIarray of parameters /
+CUQIarray of function values / function values with is_par=False): every representation of x and y must give
+the same F and G, hence the same identities.
 """
 import hashlib
 import numpy as np
@@ -18,36 +21,83 @@ from checks import _tp_refs as tp
 
 PROPERTY = "C07"
 RULE = ("cells = generic models (backing dense/csr/csc/function pair x domain geometry kind x range geometry kind x "
-        "shape) + shipped linear test problems (Deconvolution1D PSF x PSF size x BC x dim + legacy, Deconvolution2D "
-        "PSF x PSF size x BC x dim, Abel1D dim x field type); every cell evaluates forward on the complete domain "
-        "basis and adjoint on the complete range basis of the real model, its get_matrix() and its transpose model "
-        "T (taken before and after the matrix is cached); a cell is non-trivial when forward and adjoint were both "
-        "evaluated (not refused) and F has at least two distinct non-zero entries")
+        "shape; function-backed image models: operator kind L.X.R / shape-agnostic shift+cumsum / transposition x domain "
+        "image kind x range image kind (default, Image2D order C, Image2D order F, Continuous2D - the two sides "
+        "independently) x image shapes square / non-square, equal / different on the two sides, and image -> vector / "
+        "vector -> image operators with the vector side default / Continuous1D) + shipped linear test "
+        "problems (Deconvolution1D PSF x PSF size x BC x dim + legacy, Deconvolution2D PSF x PSF size x BC x dim, Abel1D "
+        "dim x field type); every cell evaluates forward on the complete domain basis and adjoint on the complete range "
+        "basis of the real model, its get_matrix() and its transpose model T (taken before and after the matrix is "
+        "cached); generic cells are also compared with an independent dense reference fun2par_range . A . par2fun_domain "
+        "written out in numpy from the documented conventions (reshape/ravel order of the image kinds, identity-like and "
+        "mapped 1-D kinds), and may not raise; input-representation facet: every map (forward, adjoint, T.forward, "
+        "T.adjoint) is re-evaluated on the complete basis and one generic vector with the argument handed over as "
+        "CUQIarray of parameters / CUQIarray of function values / plain function values with is_par=False (each "
+        "carrying the geometry of its side) and must give the plain-vector images, so <A x, y> = <x, A* y> and "
+        "get_matrix() @ x == forward(x) hold for every pair of representations of x and y; a cell is non-trivial when "
+        "forward and adjoint were both evaluated (not refused) and F has at least two distinct non-zero entries")
 BOUND = {
-    "quick": "generic 1-D: 4 backings x 10x10 geometry kinds x shapes {4x5, 3x3}; generic 2-D: 4 backings x 4x4 image "
-             "geometry kinds x 1 shape; Deconvolution1D dim {7,8} x 4 PSFs x PSF size {3,4,dim} x 5 BCs + legacy "
-             "(dim 8, 4 PSFs); Deconvolution2D dim {5,6} x 4 PSFs x PSF size {3,4,5} x 5 BCs; Abel1D dim {4,7} x 4 "
-             "field types; one value catalogue (seed % 3)",
-    "thorough": "as quick with generic 1-D shapes {4x5, 5x4, 3x3, 6x6, 8x7}, generic 2-D 3 shapes, Deconvolution1D "
-                "dim {7,8,12}, PSF size {3,4,5,6,dim}, Deconvolution2D dim {5,6,8} PSF size {3,4,5,6}, Abel1D dim "
-                "{4,7,10}",
+    "quick": "generic 1-D: 4 backings x 10x10 geometry kinds x shapes {4x5, 3x3}; generic 2-D (function pair): 4x4 image "
+             "geometry kinds x {L.X.R: (2x3)->(3x2), (2x3)->(2x3), (3x3)->(3x3); shift: 2x3, 3x3; transposition: 2x3, "
+             "3x3} + image<->vector {(2x3)->4, (3x3)->2, 4->(2x3), 2->(3x3)} x 4 image kinds x 2 vector kinds; 4 "
+             "view-returning function pairs; Deconvolution1D dim {7,8} x 4 PSFs x PSF size {3,4,dim} x 5 BCs + "
+             "legacy (dim 8, 4 PSFs); Deconvolution2D dim {5,6} x 4 PSFs x PSF size {3,4,5} x 5 BCs; Abel1D dim {4,7} x "
+             "4 field types; 4 input representations on forward/adjoint of every cell and on T.forward/T.adjoint of "
+             "the generic cells; one value catalogue (seed % 3)",
+    "thorough": "as quick with generic 1-D shapes {4x5, 5x4, 3x3, 6x6, 8x7}, generic 2-D L.X.R 6 shape pairs, shift 5 "
+                "shapes, transposition 3 shapes, image<->vector 3+3 shapes, Deconvolution1D dim {7,8,12}, PSF size {3,4,5,6,dim}, Deconvolution2D "
+                "dim {5,6,8} PSF size {3,4,5,6}, Abel1D dim {4,7,10}; 4 input representations on all four maps of "
+                "every cell",
 }
 ASSUMPTIONS = [
-    "a model that raises in forward/adjoint/T (e.g. a geometry without fun2par) is counted as refused, not as wrong",
+    "a shipped test problem that raises in forward/adjoint/T is counted as refused, not as wrong; the generic models "
+    "are built from callables defined on the documented function shape of geometries that have both maps, so a raise "
+    "there is a failure",
     "MappedGeometry is only exercised with linear maps (flip, scaling) - a non-linear map makes the model non-linear",
     "equality is decided at 1e-9 relative on dense matrices of dimension <= 64",
     "the identity is checked in the Euclidean inner product of the parameter vectors (as the statement says)",
     "matrix-backed models are built with a matrix of shape (range_dim, domain_dim); a smaller matrix that happens to "
     "broadcast over the columns of an image-shaped function value is outside the documented use and not judged",
+    "the dense reference covers identity-like, mapped (flip/scale) and image geometry kinds; for KL / step expansions "
+    "the geometry maps are not re-implemented here (forward is then only compared with get_matrix/T/its other "
+    "representations)",
+    "function-value representations of x are obtained with the geometry's own par2fun (they present the same x; the "
+    "correctness of par2fun itself is judged through the dense reference where one exists)",
+    "only the values of the returned parameter vectors are judged, not the wrapper type of the output",
 ]
 
 BACKINGS = ["dense", "csr", "csc", "func"]
 KINDS1 = ["default", "Continuous1D", "Discrete", "Image2D-visual", "Mapped-flip", "Mapped-scale", "KL", "KL-trunc",
           "Step", "Step-full"]
 KINDS2 = ["default2D", "Image2D-C", "Image2D-F", "Continuous2D"]
+KINDS_VEC = ["default", "Continuous1D"]      # the vector side of an image <-> vector model
 # kinds whose par2fun/fun2par may be applied twice without changing the result (re-applying is a no-op)
 _REAPPLY_OK = {"default", "Continuous1D", "Discrete", "Image2D-visual", "Step-full", "default2D", "Image2D-C",
                "Image2D-F", "Continuous2D"}
+# documented storage order of the image kinds (row-major unless order="F" is asked for)
+_ORDER2 = {"default2D": "C", "Image2D-C": "C", "Image2D-F": "F", "Continuous2D": "C"}
+# representation of the argument handed to forward / adjoint / T.forward / T.adjoint: the SAME parameter vector as
+#   ndarray        plain vector of parameters (the default route)
+#   CUQIarray-par  CUQIarray(is_par=True) carrying the geometry of the side it is given to
+#   CUQIarray-fun  CUQIarray(is_par=False) holding the function values par2fun(x), carrying that geometry
+#   ndarray-fun    plain array of function values par2fun(x), handed over with is_par=False
+REPS = ["ndarray", "CUQIarray-par", "CUQIarray-fun", "ndarray-fun"]
+
+
+def gen2_shapes(thorough):
+    """(r, c, r2, c2) per operator kind: non-square and square images, equal and different shapes on the two sides;
+    c == 0 / c2 == 0: that side is a vector of r / r2 values."""
+    if not thorough:
+        return {"LXR": [(2, 3, 3, 2), (2, 3, 2, 3), (3, 3, 3, 3)],
+                "shift": [(2, 3, 2, 3), (3, 3, 3, 3)],
+                "transpose": [(2, 3, 3, 2), (3, 3, 3, 3)],
+                "img2vec": [(2, 3, 4, 0), (3, 3, 2, 0)],
+                "vec2img": [(4, 0, 2, 3), (2, 0, 3, 3)]}
+    return {"LXR": [(2, 3, 3, 2), (2, 3, 2, 3), (3, 3, 3, 3), (3, 2, 2, 3), (3, 3, 4, 2), (4, 2, 4, 2)],
+            "shift": [(2, 3, 2, 3), (3, 3, 3, 3), (3, 2, 3, 2), (4, 2, 4, 2), (2, 5, 2, 5)],
+            "transpose": [(2, 3, 3, 2), (3, 3, 3, 3), (4, 2, 2, 4)],
+            "img2vec": [(2, 3, 4, 0), (3, 3, 2, 0), (3, 2, 3, 0)],
+            "vec2img": [(4, 0, 2, 3), (2, 0, 3, 3), (3, 0, 3, 2)]}
 
 
 # ----------------------------------------------------------------------------------------
@@ -67,37 +117,43 @@ def cells(tier, seed):
     for view in ("reverse", "restrict", "stride", "identity"):
         for n in ((5,) if not thorough else (5, 8)):
             yield {"fam": "genview", "view": view, "n": n, "backing": "func", "dk": "default", "rk": "default", "cat": k}
-    # 2-D: domain image (r, c); matrix backing M (r2 x r) acts on the image columns -> range image (r2, c);
-    # function backing X -> L X R with range image (r2, c2)
-    shapes2 = [(2, 3, 3, 2)] if not thorough else [(2, 3, 3, 2), (3, 2, 2, 3), (3, 3, 4, 2)]
-    for b in BACKINGS:
-        if b != "func":
-            # a stored matrix whose shape is not (range_dim, domain_dim) - applied to the columns of an image by
-            # accident of numpy broadcasting - is not a matrix-backed linear model in the documented sense
-            continue
-        for (r, c, r2, c2) in shapes2:
-            for dk in KINDS2:
-                for rk in KINDS2:
-                    yield {"fam": "gen2", "backing": b, "r": r, "c": c, "r2": r2, "c2": c2, "dk": dk, "rk": rk, "cat": k}
+    # 2-D, function-backed: domain image (r, c) -> range image (r2, c2); geometry kind of the two sides independently;
+    # three operator kinds: "LXR" X -> L X R (shape-aware), "shift" X -> a X + b roll_rows + c roll_cols + d cumsum_rows
+    # (same shape on both sides; defined for an image of ANY shape, so a geometry handing over a wrongly shaped image
+    # is answered with wrong numbers, not with an exception), "transpose" X -> X^T (a view of its input)
+    # (a stored matrix whose shape is not (range_dim, domain_dim) - applied to the columns of an image by accident of
+    #  numpy broadcasting - is not a matrix-backed linear model in the documented sense: no matrix backing here)
+    for op, shapes in gen2_shapes(thorough).items():
+        for (r, c, r2, c2) in shapes:
+            # a side with 0 columns is a plain vector of r values (1-D geometry kinds): image <-> vector models
+            for dk in (KINDS2 if c else KINDS_VEC):
+                for rk in (KINDS2 if c2 else KINDS_VEC):
+                    yield {"fam": "gen2", "backing": "func", "op": op, "r": r, "c": c, "r2": r2, "c2": c2, "dk": dk,
+                           "rk": rk, "cat": k}
+    # shipped test problems: every representation on forward and adjoint; on the maps of the transposed model too in
+    # the thorough tier (the transposed model is LinearModel machinery, covered with every representation above)
+    tp_reps = "full" if thorough else "fwd-adj"
     dims1 = [7, 8] if not thorough else [7, 8, 12]
     for dim in dims1:
         sizes = [3, 4, dim] if not thorough else [3, 4, 5, 6, dim]
         for psf in tp.PSF_NAMES:
             for size in sizes:
                 for bc in tp.BC_1D:
-                    yield {"fam": "deconv1d", "dim": dim, "PSF": psf, "size": size, "BC": bc, "cat": k}
+                    yield {"fam": "deconv1d", "dim": dim, "PSF": psf, "size": size, "BC": bc, "cat": k,
+                           "reps": tp_reps}
     for psf in ["gauss", "sinc", "vonmises", "custom"]:
-        yield {"fam": "deconv1d-legacy", "dim": 8, "PSF": psf, "cat": k}
+        yield {"fam": "deconv1d-legacy", "dim": 8, "PSF": psf, "cat": k, "reps": tp_reps}
     dims2 = [5, 6] if not thorough else [5, 6, 8]
     for dim in dims2:
         sizes = [3, 4, 5] if not thorough else [3, 4, 5, 6]
         for psf in tp.PSF_NAMES:
             for size in sizes:
                 for bc in tp.BC_2D:
-                    yield {"fam": "deconv2d", "dim": dim, "PSF": psf, "size": size, "BC": bc, "cat": k}
+                    yield {"fam": "deconv2d", "dim": dim, "PSF": psf, "size": size, "BC": bc, "cat": k,
+                           "reps": tp_reps}
     for dim in ([4, 7] if not thorough else [4, 7, 10]):
         for field in ["none", "KL", "Step", "KL+scale-map"]:
-            yield {"fam": "abel", "dim": dim, "field": field, "cat": k}
+            yield {"fam": "abel", "dim": dim, "field": field, "cat": k, "reps": tp_reps}
 
 
 # ----------------------------------------------------------------------------------------
@@ -199,17 +255,11 @@ def build(cell):
         model = LinearModel(fwd, adj, range_geometry=m, domain_geometry=n)
         return model, "LinearModel", "backing=function-view,geometry=identity"
     if fam == "gen2":
-        r, c, r2, c2, b = cell["r"], cell["c"], cell["r2"], cell["c2"], cell["backing"]
-        Lm = refs.full_matrix(r2, r, k)
-        Rm = refs.full_matrix(c, c2, k + 1)
-        dg = make_geom(cell["dk"], (r, c))
-        if b == "func":
-            rg = make_geom(cell["rk"], (r2, c2))
-            model = LinearModel(lambda X: Lm @ X @ Rm, lambda Y: Lm.T @ Y @ Rm.T, range_geometry=rg, domain_geometry=dg)
-        else:
-            rg = make_geom(cell["rk"], (r2, c))
-            model = LinearModel(_wrap_matrix(Lm, b), range_geometry=rg, domain_geometry=dg)
-        return model, "LinearModel", "backing=%s,geometry=image" % _bk(b)
+        fwd, adj = _gen2_pair(cell)
+        dg = make_geom(cell["dk"], (cell["r"], cell["c"]) if cell["c"] else cell["r"])
+        rg = make_geom(cell["rk"], (cell["r2"], cell["c2"]) if cell["c2"] else cell["r2"])
+        model = LinearModel(fwd, adj, range_geometry=rg, domain_geometry=dg)
+        return model, "LinearModel", "backing=function,geometry=image"
     if fam == "deconv1d":
         P = tp.custom_psf_1d(cell["size"], k) if cell["PSF"] == "custom" else cell["PSF"]
         prob = cuqi.testproblem.Deconvolution1D(dim=cell["dim"], PSF=P, PSF_param=[1.25, 2.0, 1.5][k],
@@ -243,6 +293,115 @@ def build(cell):
     raise ValueError(fam)
 
 
+def _gen2_pair(cell):
+    """The image operator of a gen2 cell and its exact transpose (plain numpy; both propagate ndarray subclasses)."""
+    r, c, r2, c2, k, op = cell["r"], cell["c"], cell["r2"], cell["c2"], cell["cat"], cell["op"]
+    if op == "LXR":
+        Lm = refs.full_matrix(r2, r, k)
+        Rm = refs.full_matrix(c, c2, k + 1)
+        return (lambda X: Lm @ X @ Rm), (lambda Y: Lm.T @ Y @ Rm.T)
+    if op == "shift":
+        a, b, g, d = [(1.0, 0.5, 2.0, 0.25), (0.5, 2.0, -1.0, 0.75), (-1.5, 1.0, 0.25, 0.5)][k]
+
+        def fwd(X):
+            return a * X + b * np.roll(X, 1, axis=0) + g * np.roll(X, 1, axis=1) + d * np.cumsum(X, axis=0)
+
+        def adj(Y):
+            return (a * Y + b * np.roll(Y, -1, axis=0) + g * np.roll(Y, -1, axis=1)
+                    + d * np.cumsum(Y[::-1], axis=0)[::-1])
+        return fwd, adj
+    if op == "transpose":
+        return (lambda X: X.T), (lambda Y: Y.T)
+    if op == "img2vec":      # image (r, c) -> vector of r2 values
+        Lm = refs.full_matrix(r2, r, k)
+        rv = refs.dyadic_vec(c, k + 1)
+        return (lambda X: Lm @ X @ rv), (lambda y: Lm.T @ np.multiply.outer(y, rv))
+    if op == "vec2img":      # vector of r values -> image (r2, c2)
+        Lm = refs.full_matrix(r2, r, k)
+        rv = refs.dyadic_vec(c2, k + 1)
+        return (lambda x: np.multiply.outer(Lm @ x, rv)), (lambda Y: Lm.T @ (Y @ rv))
+    raise ValueError(op)
+
+
+def _to_fun(e, rows, cols, kind):
+    """Documented parameter -> function conversion of one side of a gen2 cell (vector side: identity)."""
+    return np.reshape(e, (rows, cols), order=_ORDER2[kind]) if cols else e
+
+
+def _to_par(f, cols, kind):
+    return np.ravel(f, order=_ORDER2[kind]) if cols else np.asarray(f)
+
+
+def _flipmat(d):
+    return np.eye(d)[::-1]
+
+
+def _par2fun_1d(kind, d):
+    """Independent par2fun matrix of the 1-D kinds whose maps are written out here (None: no reference)."""
+    if kind in _IDENTITY:
+        return np.eye(d)
+    if kind == "Mapped-flip":
+        return _flipmat(d)
+    if kind == "Mapped-scale":
+        return 2.0 * np.eye(d)
+    return None
+
+
+def _fun2par_1d(kind, d):
+    if kind in _IDENTITY:
+        return np.eye(d)
+    if kind == "Mapped-flip":
+        return _flipmat(d)
+    if kind == "Mapped-scale":
+        return 0.5 * np.eye(d)
+    return None
+
+
+def reference(cell):
+    """Independent dense reference (plain numpy, documented conventions only) of the parameter-to-parameter forward
+    matrix of a generic cell, or None where the geometry's maps are not re-implemented here (KL / step expansions)."""
+    fam, k = cell["fam"], cell["cat"]
+    if fam == "gen1":
+        m, n = cell["m"], cell["n"]
+        P, Q = _par2fun_1d(cell["dk"], n), _fun2par_1d(cell["rk"], m)
+        if P is None or Q is None:
+            return None
+        return Q @ refs.full_matrix(m, n, k) @ P
+    if fam == "genview":
+        n, view = cell["n"], cell["view"]
+        I = np.eye(n)
+        return {"reverse": I[::-1], "identity": I, "restrict": I[: n - 2], "stride": I[::2]}[view].copy()
+    if fam == "gen2":
+        r, c, r2, c2, dk, rk = cell["r"], cell["c"], cell["r2"], cell["c2"], cell["dk"], cell["rk"]
+        fwd, adj = _gen2_pair(cell)
+        n, m = r * max(c, 1), r2 * max(c2, 1)
+        Fr = np.array([_to_par(fwd(_to_fun(e, r, c, dk)), c2, rk) for e in np.eye(n)]).T
+        Gr = np.array([_to_par(adj(_to_fun(f, r2, c2, rk)), c, dk) for f in np.eye(m)]).T
+        assert Fr.shape == (m, n) and np.allclose(Gr, Fr.T, rtol=0, atol=1e-12), "harness: operator pair is not adjoint"
+        return Fr
+    return None
+
+
+def _image_side_matches(geom, shape, order):
+    """True when the real image geometry converts vector <-> image as documented (used for *naming* the failing side
+    only): par2fun(e) == e.reshape(shape, order) and fun2par(E) == E.ravel(order) on the complete bases."""
+    try:
+        d = int(shape[0] * shape[1])
+        for i in range(d):
+            e = np.zeros(d)
+            e[i] = 1.0
+            E = np.reshape(e, tuple(shape), order=order)
+            f = np.asarray(geom.par2fun(e.copy()), dtype=float)
+            if f.shape != E.shape or not np.array_equal(f, E):
+                return False
+            p = np.asarray(geom.fun2par(E.copy()), dtype=float)
+            if p.shape != e.shape or not np.array_equal(p, e):
+                return False
+        return True
+    except Exception:
+        return False
+
+
 def _bk(b):
     return "function" if b == "func" else "matrix"
 
@@ -266,23 +425,83 @@ def _cls(geom):
 # ----------------------------------------------------------------------------------------
 # basis evaluation helpers (all on the real code)
 # ----------------------------------------------------------------------------------------
-def _columns(fn, n, res):
+def _as_rep(x, geom, rep):
+    """-> (argument, keyword arguments) presenting the parameter vector ``x`` of the side with geometry ``geom`` in
+    the representation ``rep``.  Function values are par2fun(x) of that geometry (plain ndarray data)."""
+    if rep == "ndarray":
+        return x, {}
+    from cuqi.array import CUQIarray
+    if rep == "CUQIarray-par":
+        return CUQIarray(x.copy(), is_par=True, geometry=geom), {}
+    f = np.array(np.asarray(geom.par2fun(x.copy())), dtype=float)
+    if rep == "CUQIarray-fun":
+        return CUQIarray(f, is_par=False, geometry=geom), {}
+    if rep == "ndarray-fun":
+        return f, {"is_par": False}
+    raise ValueError(rep)
+
+
+def _apply(fn, x, geom, rep):
+    arg, kw = _as_rep(x, geom, rep)
+    return np.array(np.asarray(fn(arg, **kw)), dtype=float).ravel()
+
+
+def _columns(fn, n, res, geom=None, rep="ndarray"):
     cols = []
     for i in range(n):
         e = np.zeros(n)
         e[i] = 1.0
         res.transitions += 1
-        cols.append(np.asarray(fn(e), dtype=float).ravel())
+        cols.append(_apply(fn, e, geom, rep))
     return np.array(cols).T if cols else np.zeros((0, 0))
 
 
-def _try_columns(fn, n, res, what):
+def _try_columns(fn, n, res, what, geom=None, rep="ndarray", raise_sig=None):
+    """Basis images of ``fn``; a raise is a refusal unless ``raise_sig`` is given (harness-built generic models whose
+    callables are defined on the documented function shape: nothing to refuse), then it is a failure."""
     try:
-        return _columns(fn, n, res)
-    except Exception as e:  # refused
+        return _columns(fn, n, res, geom, rep)
+    except Exception as e:
+        if raise_sig is not None:
+            res.fail(raise_sig, "%s raised on a basis vector (%s input) although the model's callables are defined on "
+                     "the geometry's documented function shape: %r" % (what, rep, e))
+            res.outcomes.add("%s-raised:%s" % (what, type(e).__name__))
+            return None
         res.refused += 1
         res.outcomes.add("%s-refused:%s" % (what, type(e).__name__))
         return None
+
+
+def _check_representations(res, label, fn, n_in, geom, base, probe, strict, reps):
+    """The map ``fn`` (forward / adjoint / T.forward / T.adjoint) must not depend on how its argument is presented:
+    for every representation its images of the complete basis equal ``base`` (the plain-vector images), and one
+    generic vector is mapped to ``base @ probe``."""
+    for rep in reps:
+        if rep == "ndarray":
+            continue
+        # one signature per representation: all four maps go through the same conversion of the argument
+        # (Model._apply_func), the message names the map
+        sig = "C07|LinearModel|input-representation|rep=%s" % rep
+        M = _try_columns(fn, n_in, res, "%s(%s)" % (label, rep), geom, rep, raise_sig=sig if strict else None)
+        if M is None:
+            continue
+        res.evaluations += 1
+        same = M.shape == base.shape and close(M, base, 1e-9)
+        res.outcomes.add("%s:%s:%s" % (label, rep, "same" if same else "differs"))
+        if not same:
+            res.fail(sig, "%s of the basis vectors handed over as %s differs from %s of the same vectors handed over as "
+                     "plain parameter vectors (max diff %r)" % (label, rep, label,
+                     float(np.max(np.abs(M - base))) if M.shape == base.shape else M.shape), got=M, plain=base)
+            continue
+        try:
+            res.transitions += 1
+            res.traces += 1
+            out = _apply(fn, probe.copy(), geom, rep)
+            if not (out.shape == (base.shape[0],) and close(out, base @ probe, 1e-9)):
+                res.fail(sig, "%s(v) for a generic vector v handed over as %s differs from the matrix of basis images "
+                         "applied to v" % (label, rep))
+        except Exception as e:
+            res.fail(sig, "%s raised on a generic vector (%s) after accepting the basis: %r" % (label, rep, e))
 
 
 def _geometry_transposes(geom):
@@ -330,8 +549,16 @@ def check_model(res, model, comp, facet, cell):
         gfacet = "backing=%s,geometry=%s" % (bk, gcat)
     if matrix_backed:
         comp, facet = "LinearModel", gfacet
-    F = _try_columns(model.forward, n, res, "forward")
-    G = _try_columns(model.adjoint, m, res, "adjoint")
+    # generic models are built here from callables defined on the geometries' documented function shapes (and every
+    # geometry kind used has both maps): they have nothing to refuse; a shipped test problem may refuse
+    strict = cell["fam"] in ("gen1", "gen2", "genview")
+    reps = REPS
+    t_reps = REPS if cell.get("reps", "full") == "full" else REPS[:1]
+    dgeom, rgeom = model.domain_geometry, model.range_geometry
+    F = _try_columns(model.forward, n, res, "forward",
+                     raise_sig=("C07|LinearModel|forward-raises|%s" % gfacet) if strict else None)
+    G = _try_columns(model.adjoint, m, res, "adjoint",
+                     raise_sig=("C07|LinearModel|adjoint-raises|%s" % gfacet) if strict else None)
     if F is None or G is None:
         res.nontrivial = False
         return
@@ -342,6 +569,26 @@ def check_model(res, model, comp, facet, cell):
     vals = np.unique(np.round(F[np.abs(F) > 1e-14], 12))
     if vals.size < 2:
         res.nontrivial = False
+
+    # ---- (0) independent reference of the parameter-to-parameter forward matrix (generic cells) ----------
+    Fref = reference(cell)
+    if Fref is not None:
+        res.evaluations += 1
+        res.traces += n
+        ref_ok = Fref.shape == F.shape and close(F, Fref, 1e-9)
+        res.outcomes.add("reference:%s" % ("ok" if ref_ok else "differs"))
+        if not ref_ok:
+            blamed = []
+            if cell["fam"] == "gen2":
+                if cell["c"] and not _image_side_matches(dgeom, (cell["r"], cell["c"]), _ORDER2[cell["dk"]]):
+                    blamed.append("domain=%s" % cell["dk"])
+                if cell["c2"] and not _image_side_matches(rgeom, (cell["r2"], cell["c2"]), _ORDER2[cell["rk"]]):
+                    blamed.append("range=%s" % cell["rk"])
+            for b in (blamed or [gfacet]):
+                res.fail("C07|LinearModel|forward-reference|%s" % b,
+                         "forward on the complete basis differs from the dense reference fun2par_range . A . par2fun_domain "
+                         "written out from the documented conventions (max diff %r)" %
+                         (float(np.max(np.abs(F - Fref))),), F=F, Fref=Fref)
 
     dom_ok = _geometry_transposes(model.domain_geometry)
     ran_ok = _geometry_transposes(model.range_geometry)
@@ -390,6 +637,10 @@ def check_model(res, model, comp, facet, cell):
         res.fail("C07|%s|probe-raises|%s" % (comp, facet), "forward/adjoint raised on a generic vector after accepting "
                  "the basis: %r" % (e,))
 
+    # ---- input-representation facet: the same x / y as CUQIarray (parameters / function values) ... ----
+    _check_representations(res, "forward", model.forward, n, dgeom, F, v, strict, reps)
+    _check_representations(res, "adjoint", model.adjoint, m, rgeom, G, w, strict, reps)
+
     # ---- (3a) transpose model taken before the matrix is cached ----------------------------------
     t_forward_ok = False
     try:
@@ -402,7 +653,8 @@ def check_model(res, model, comp, facet, cell):
         res.state("T")
         t_facet = gfacet if reapply_ok else "geometry=non-identity"
         t_comp = "LinearModel"
-        TF = _try_columns(T0.forward, m, res, "T.forward")
+        TF = _try_columns(T0.forward, m, res, "T.forward",
+                          raise_sig=("C07|LinearModel|T.forward-raises|%s" % gfacet) if strict else None)
         if TF is not None:
             res.evaluations += 1
             t_forward_ok = TF.shape == G.shape and close(TF, G, 1e-9)
@@ -410,7 +662,8 @@ def check_model(res, model, comp, facet, cell):
                 res.fail("C07|%s|T.forward|%s" % (t_comp, t_facet), "T.forward differs from adjoint on the range basis "
                          "(max diff %r)" % (float(np.max(np.abs(TF - G))) if TF.shape == G.shape else TF.shape,),
                          TF=TF, G=G)
-        TA = _try_columns(T0.adjoint, n, res, "T.adjoint")
+        TA = _try_columns(T0.adjoint, n, res, "T.adjoint",
+                          raise_sig=("C07|LinearModel|T.adjoint-raises|%s" % gfacet) if strict else None)
         if TA is not None:
             res.evaluations += 1
             if not (TA.shape == F.shape and close(TA, F, 1e-9)):
@@ -419,6 +672,10 @@ def check_model(res, model, comp, facet, cell):
                          TA=TA, F=F)
         res.outcomes.add("T:%s/%s" % ("ok" if t_forward_ok else ("refused" if TF is None else "differs"),
                                       "refused" if TA is None else "evaluated"))
+        if TF is not None:
+            _check_representations(res, "T.forward", T0.forward, m, rgeom, TF, w, strict, t_reps)
+        if TA is not None:
+            _check_representations(res, "T.adjoint", T0.adjoint, n, dgeom, TA, v, strict, t_reps)
         if t_forward_ok:
             try:
                 TM = _dense(T0.get_matrix())
